@@ -415,8 +415,10 @@ def known_amplitude_indexed_by_sort_order(case, clause, inp):
 
 
 def known_explicit_list_gets_automatic_amplitude(case, clause, inp):
-    """With a caller's channel list the amplitude vector is still the (mis-indexed) one of the automatic list:
-    wrong unless it happens to coincide with the caller's channels' amplitudes."""
+    """With a caller's channel list the amplitude vector is still the one of the AUTOMATIC list (today additionally
+    mis-indexed, see the class above): wrong unless it happens to coincide with the caller's channels' amplitudes.
+    Both forms (amp[order] today, amp[S[order]] once the indexing is repaired) are recognised, so that repairing the
+    indexing alone does not turn the remaining failures into unknown ones."""
     if case != 'template_dense' or clause != 'amplitude-j-is-ptp-of-column-j' or inp.get('explicit') is None:
         return False
     amp, g, explicit = _dense_view(case, inp)
@@ -424,7 +426,7 @@ def known_explicit_list_gets_automatic_amplitude(case, clause, inp):
     want = [amp[c] for c in explicit]
     for S in _possible_lists(amp, pos, shanks, ncl, _eff_thr(g)):
         for order in _desc_orders([amp[c] for c in S]):
-            if [amp[i] for i in order] != want:
+            if [amp[i] for i in order] != want or [amp[S[i]] for i in order] != want:
                 return True
     return False
 
@@ -519,7 +521,7 @@ def enumerate_cases(ctx):
                 if nc == 4 and (pi + si) % 2:
                     continue
                 for ncl in (1, 2, 3, 5):
-                    if ncl > nc + 1 and ncl != 5:
+                    if (ncl > nc + 1 and ncl != 5) or (quick and nc >= 3 and ncl == 3):
                         continue
                     for thr, attr in ((None, 0), (0.5, 0), (1, 0), (None, 0.5), (0, 0.5)):
                         if quick and nc >= 3 and (thr, attr) == (0, 0.5):
@@ -543,7 +545,8 @@ def enumerate_cases(ctx):
     for nc in ((3,) if quick else (3, 4)):
         rows = tiny if nc == 4 else ([(0, -1), (0, 1, 2)] if quick else red)
         wl = WMI[nc]
-        variants = [dict(unwhiten=False), dict(), dict(wmi=wl[1]), dict(wmi=wl[1], scale=2.0, dtype='float64')]
+        variants = [dict(unwhiten=False, wmi=wl[1], scale=2.0), dict(), dict(wmi=wl[1]),
+                    dict(wmi=wl[1], scale=2.0, dtype='float64')]
         if len(wl) > 2:
             variants.append(dict(wmi=wl[2], unwhiten=True))
         geoms = [(POS[nc][0], SHANKS[nc][0], 2), (POS[nc][1], SHANKS[nc][1], 2), (POS[nc][3], SHANKS[nc][2], 5),
@@ -564,7 +567,7 @@ def enumerate_cases(ctx):
         wl = WMI[nc]
         for tpl in _templates(nc, rows):
             for ex in _sublists(nc):
-                for vi, var in enumerate([dict(unwhiten=False), dict(wmi=wl[1]), dict(wmi=wl[1], scale=2.0)]):
+                for vi, var in enumerate([dict(unwhiten=False, wmi=wl[1]), dict(wmi=wl[1]), dict(wmi=wl[1], scale=2.0)]):
                     if (quick or nc == 4) and (len(ex) + vi) % 3:
                         continue
                     ctx.run('template_dense', dict(var, pos=POS[nc][0], shanks=SHANKS[nc][1], ncl=2, thr=0.5,
@@ -577,9 +580,11 @@ def enumerate_cases(ctx):
     ctx.scope('get_template, sparse store: 2 templates x 2 samples x 3 stored columns (values: quick {0,-1}x{0,1,2}, '
               'thorough {-1,0,2}^2, incl. all-zero columns and all-zero templates), column rows over {-1,0..5} incl. '
               'repeated -1 (%d rows), 6 channels, whitening absent / dyadic non-symmetric / scaling 2, whitened and '
-              'unwhitened requests, int32/int64/uint32 tables' % len(colrows))
+              'unwhitened requests (against a non-identity matrix), int32/int64/uint32 tables; plus one column scaled '
+              'by 2^-10 (small but not signal-free)' % len(colrows))
     rows = [(0, -1), (0, 1, 2)] if quick else red
-    sv = [dict(unwhiten=False), dict(), dict(wmi=WMI[6][1]), dict(wmi=WMI[6][1], scale=2.0, dtype='float64', cols_dtype='int64')]
+    sv = [dict(unwhiten=False, wmi=WMI[6][1], scale=2.0), dict(), dict(wmi=WMI[6][1]),
+          dict(wmi=WMI[6][1], scale=2.0, dtype='float64', cols_dtype='int64')]
     pos6 = [[0, i * i] for i in range(6)]
     for ci, cr in enumerate(colrows):
         for tpl in _templates(3, rows):
@@ -594,6 +599,15 @@ def enumerate_cases(ctx):
                     if min(min(c) for c in cols) >= 0 and vi == 2:
                         inp['cols_dtype'] = 'uint32'
                     ctx.run('template_sparse', inp)
+
+    # a column 1000x smaller than the template's maximum still carries signal and must stay listed
+    for ci, cr in enumerate(colrows[:5]):
+        for tpl in _templates(3, tiny):
+            for j in range(3):
+                small = [[v * (2.0 ** -10 if k == j else 1.0) for k, v in enumerate(r)] for r in tpl]
+                for var in (dict(unwhiten=False, wmi=WMI[6][1]), dict(wmi=WMI[6][1])):
+                    ctx.run('template_sparse', dict(var, pos=pos6, ncl=3, data=[decoy[3], small],
+                                                    cols=[colrows[ci + 1], cr], tid=1))
 
     # ---- accessors ------------------------------------------------------------------------------
     ctx.scope('get_template_channels / get_template_waveforms / get_cluster_channels: 3 templates (dense on 4 channels, '
